@@ -524,7 +524,14 @@ func c02FamMatch(rng *Rng, id int) *c02Prog {
 	var params []c02Param
 	var body *c02Exp
 	rty := c02Int
-	switch rng.Intn(4) {
+	switch rng.Intn(5) {
+	case 4: // call target, and a parameter that is only the body of an arm (typed int by the other arms)
+		arms, xs := armsShp(c02V("d"))
+		params = []c02Param{{Name: "x", Ty: c02Int, Ann: rng.Chance(1, 3), Red: true}, {Name: "d", Ty: c02Int, Ann: rng.Chance(1, 3), Red: true}}
+		if rng.Bool() {
+			params[0], params[1] = params[1], params[0]
+		}
+		body = &c02Exp{K: "match", Name: "Shp", Xs: xs, Args: append([]*c02Exp{c02G_(f0, c02V("x"))}, arms...)}
 	case 0: // the target is a call: x is determined by nothing else
 		arms, xs := armsShp(nil)
 		params = []c02Param{{Name: "x", Ty: c02Int, Ann: rng.Chance(1, 3), Red: true}}
@@ -538,30 +545,13 @@ func c02FamMatch(rng *Rng, id int) *c02Prog {
 		arms, xs := armsShp(nil)
 		params = []c02Param{{Name: "g", Ty: c02Fun([]*c02Ty{c02Var(0)}, c02Int)}, {Name: "y", Ty: c02Var(0)}}
 		body = &c02Exp{K: "match", Name: "Shp", Xs: xs, Args: append([]*c02Exp{c02G_(f0, &c02Exp{K: "callp", Name: "g", Args: []*c02Exp{c02V("y")}})}, arms...)}
-	default: // let-bound target; a second parameter used in one arm with its own typed operand
-		// (a parameter that is ONLY an arm body stays generic in fc - the arms of a match are not unified
-		// with each other: reported finding, hazard template c02HazardMatchArms)
-		arms, xs := armsShp(c02Op("arith", "-", c02V("d"), c02I(1)))
+	default: // let-bound target; a second parameter that is ONLY the body of a later arm: the relation between
+		// the arms is what determines it (fc unifies the arms with each other since ed18265)
+		arms, xs := armsShp(c02V("d"))
 		params = []c02Param{{Name: "x", Ty: c02Int, Ann: rng.Chance(1, 3), Red: true}, {Name: "d", Ty: c02Int, Ann: rng.Chance(1, 3), Red: true}}
 		body = c02Let("t", c02G_(f0, c02Op("arith", "*", c02V("x"), c02I(2))),
 			&c02Exp{K: "match", Name: "Shp", Xs: xs, Args: append([]*c02Exp{c02V("t")}, arms...)})
 	}
 	fn1 = c02MkFunc(f1, params, body, rty)
 	return &c02Prog{ID: id, Stream: "family-match", Funcs: []*c02Func{fn0, fn1}}
-}
-
-// the arms of a match are not unified with each other by fc (meToType takes the type of the first arm, no
-// relation is collected between arms): a parameter that is only the body of a later arm stays generic
-func c02HazardMatchArms(rng *Rng, id int) *c02Prog {
-	f0, f1 := fmt.Sprintf("p%df0", id), fmt.Sprintf("p%df1", id)
-	fn0 := c02MkFunc(f0, []c02Param{{Name: "n", Ty: c02Int, Ann: true}},
-		&c02Exp{K: "if", Args: []*c02Exp{c02Op("cmp", "<", c02V("n"), c02I(rng.Intn(9))),
-			{K: "ctor", Name: "Shp", Name2: "Dot"},
-			{K: "ctor", Name: "Shp", Name2: "Circ", Args: []*c02Exp{c02V("n")}}}}, c02Named("Shp"))
-	m := &c02Exp{K: "match", Name: "Shp", Xs: []string{"v", "_", "", "_"}, Args: []*c02Exp{
-		c02G_(f0, c02V("x")), c02Op("arith", "+", c02V("v"), c02I(1)), c02I(2), c02V("d"), c02I(4)}}
-	fn1 := c02MkFunc(f1, []c02Param{{Name: "x", Ty: c02Int}, {Name: "d", Ty: c02Int}}, m, c02Int)
-	p := &c02Prog{ID: id, Stream: "hazard-matcharms", Funcs: []*c02Func{fn0, fn1}}
-	p.initSites(rng)
-	return p
 }
